@@ -310,6 +310,11 @@ def raw_gfa(draw, max_nodes=7, max_links=12, seq_mode="seq", link_tags=True, seg
             if draw(st.booleans()):
                 continue
             ov, tags = seen[key]
+            if not tags and draw(st.integers(0, 3)) == 0 and (key, "par") not in seen:
+                # a second, distinct link between the same segment ends: it differs in its overlap
+                seen[(key, "par")] = True
+                links.append([a, oa, b, ob, ov + 2, []])
+                continue
             if draw(st.booleans()):
                 a, oa, b, ob = b, FLIP[ob], a, FLIP[oa]
             links.append([a, oa, b, ob, ov, list(tags)])
